@@ -54,6 +54,9 @@ pub trait ChainStore: Send + Sync + Sized {
             if raw_block.calc_header_hash() == *h {
                 return Some(raw_block.into_view());
             }
+            // the wipe-out pass removes such a block as a whole while its header may
+            // still be served from the read cache: gone, not half stored
+            self.get(COLUMN_BLOCK_UNCLE, h.as_slice())?;
         }
         let body = self.get_block_body(h);
         let uncles = self
